@@ -18,7 +18,12 @@ Section Api.
   | AExps (l : list exp)             (* variadic / slice of expressions *)
   | AStrs (l : list string)
   | AExpss (l : list (list exp))     (* ...[]Exp *)
-  | AMap (l : list (string * V)).    (* map[string]any, keys sorted (Go: sort.Strings) *)
+  | AMap (l : list (string * V))     (* map[string]any, keys sorted (Go: sort.Strings) *)
+  | AWith (ws : list (withq exp))    (* a WithBuilder (its list of WITH queries) *)
+  | AAny (v : V)                     (* an argument of type any (a value to be bound) *)
+  | AAnys (l : list V)
+  | ABool (b : bool)
+  | AInt (z : Z).                    (* int / rune *)
 
   (* ---------------------------------------------------------------- record updates *)
   Definition p_set_list (p : parts exp) l :=
@@ -190,6 +195,8 @@ Section Api.
                           | _ => None end);
       ("ForSelectBuilder.SkipLocked", fun args => match args with [] => ret (p_set_lock p (mkLock (lk_strength (p_lock p)) (lk_of (p_lock p)) "SKIP LOCKED"))
                           | _ => None end);
+      ("AppendWith", fun args => match args with [AWith ws] => Some (ESelect (w ++ ws) c p)
+                          | _ => None end);
       ("Union", fun args => match args with [] => Some (ESelect w (c ++ [mkComb p "UNION" false]) empty_parts)
                           | _ => None end);
       ("Intersect", fun args => match args with [] => Some (ESelect w (c ++ [mkComb p "INTERSECT" false]) empty_parts)
@@ -354,10 +361,75 @@ Section Api.
   Definition api (rtype meth : string) (recv : exp) (args : list aarg) : option exp :=
     lookup_h (mkey rtype meth) (handlers_of recv) args.
 
+  (* ---------------------------------------------------------------- WITH builders (with_builder.go) *)
+  (* the four handle types: a finished list of WITH queries; a list whose last query still lacks its statement;
+     a search clause under construction for the last query *)
+  Inductive wrecv :=
+  | WB (ws : list (withq exp))
+  | WWB (ws : list (withq exp))
+  | WSB (ws : list (withq exp)) (ty : string)
+  | WSBB (ws : list (withq exp)) (ty : string) (by_ : list exp).
+  Inductive ares := RExp (e : exp) | RWith (w : wrecv).
+
+  Definition wq_set_cols (q : withq exp) c := mkWithq (wq_rec q) (wq_name q) c (wq_mat q) (wq_query q) (wq_search q).
+  Definition wq_set_query (q : withq exp) e m := mkWithq (wq_rec q) (wq_name q) (wq_cols q) m e (wq_search q).
+  Definition wq_set_search (q : withq exp) s := mkWithq (wq_rec q) (wq_name q) (wq_cols q) (wq_mat q) (wq_query q) (Some s).
+  Definition wq_start (r : bool) (n : string) : withq exp := mkWithq r n [] None ENil None.
+
+  Definition with_handlers (r : wrecv) : list (string * (list aarg -> option ares)) :=
+    match r with
+    | WB ws =>
+        [("With", fun args => match args with [AStr n] => Some (RWith (WWB (ws ++ [wq_start false n]))) | _ => None end);
+         ("WithRecursive", fun args => match args with [AStr n] => Some (RWith (WWB (ws ++ [wq_start true n]))) | _ => None end);
+         ("SearchDepthFirst", fun args => match args with [] => Some (RWith (WSB ws "DEPTH")) | _ => None end);
+         ("SearchBreadthFirst", fun args => match args with [] => Some (RWith (WSB ws "BREADTH")) | _ => None end);
+         ("Select", fun args => match args with
+                                | [AExps l] => Some (RExp (ESelect ws [] (p_set_list empty_parts (map (fun e => (e, "")) l))))
+                                | _ => None end);
+         ("InsertInto", fun args => match args with
+                                    | [AExp t] => Some (RExp (EInsert (mkIns ws t "" None false None ENil [] [] "" "" [] [] [])))
+                                    | _ => None end);
+         ("Update", fun args => match args with [AExp t] => Some (RExp (EUpdate (mkUpd ws t "" [] [] [] []))) | _ => None end);
+         ("DeleteFrom", fun args => match args with [AExp t] => Some (RExp (EDelete (mkDel ws t "" [] [] []))) | _ => None end)]
+    | WWB ws =>
+        let fin q m := opt_bind (upd_last (fun x => wq_set_query x q m) ws) (fun l => Some (RWith (WB l))) in
+        [("ColumnNames", fun args => match args with
+                                     | [AStrs c] => opt_bind (upd_last (fun x => wq_set_cols x c) ws) (fun l => Some (RWith (WWB l)))
+                                     | _ => None end);
+         ("As", fun args => match args with [AExp q] => fin q None | _ => None end);
+         ("AsNotMaterialized", fun args => match args with [AExp q] => fin q (Some false) | _ => None end);
+         ("AsMaterialized", fun args => match args with [AExp q] => fin q (Some true) | _ => None end)]
+    | WSB ws ty =>
+        [("By", fun args => match args with [AExp e; AExps l] => Some (RWith (WSBB ws ty (e :: l))) | _ => None end)]
+    | WSBB ws ty by_ =>
+        [("Set", fun args => match args with
+                             | [AStr n] => opt_bind (upd_last (fun x => wq_set_search x (mkWSearch ty by_ n)) ws)
+                                             (fun l => Some (RWith (WB l)))
+                             | _ => None end)]
+    end.
+
+  Definition api_with (meth : string) (r : wrecv) (args : list aarg) : option ares :=
+    match find (fun kh => String.eqb (fst kh) meth) (with_handlers r) with
+    | Some kh => snd kh args
+    | None => None
+    end.
+
+  Definition entry_with (name : string) (args : list aarg) : option wrecv :=
+    match args with
+    | [AStr n] => if String.eqb name "With" then Some (WWB [wq_start false n])
+                  else if String.eqb name "WithRecursive" then Some (WWB [wq_start true n]) else None
+    | _ => None
+    end.
+
   (* the package-level entry points (root.go): Select is SelectBuilder{}.Select; the three table statements start
      from a builder holding only the table *)
   Definition entry (name : string) (args : list aarg) : option exp :=
     if String.eqb name "Select" then api "SelectBuilder" "Select" (ESelect [] [] empty_parts) args
+    else if String.eqb name "SelectJson" then
+      match args with
+      | [AExp obj] => Some (ESelect [] [] (mkParts false [] (Some obj) "" [] [] [] false [] [] [] ENil ENil (mkLock "" [] "")))
+      | _ => None
+      end
     else match args with
          | [AExp t] =>
              if String.eqb name "InsertInto" then Some (EInsert (mkIns [] t "" None false None ENil [] [] "" "" [] [] []))
@@ -368,5 +440,6 @@ Section Api.
          end.
 End Api.
 
-Arguments AExp {V}. Arguments AStr {V}. Arguments AExps {V}. Arguments AStrs {V}. Arguments AExpss {V}. Arguments AMap {V}.
-Arguments api {V}. Arguments entry {V}.
+Arguments AExp {V}. Arguments AStr {V}. Arguments AExps {V}. Arguments AStrs {V}. Arguments AExpss {V}. Arguments AMap {V}. Arguments AWith {V}. Arguments AAny {V}. Arguments AAnys {V}. Arguments ABool {V}. Arguments AInt {V}.
+Arguments api {V}. Arguments entry {V}. Arguments api_with {V}. Arguments entry_with {V}.
+Arguments WB {V}. Arguments WWB {V}. Arguments WSB {V}. Arguments WSBB {V}. Arguments RExp {V}. Arguments RWith {V}.
